@@ -78,6 +78,8 @@ HOT_NODES = [
     {"t": "dict"}, {"t": "dict", "entries": [{"key": "a", "opt": False, "spec": {"t": "int"}},
                                              {"key": "b", "opt": True, "spec": {"t": "str"}}], "relaxed": False},
     {"t": "dict", "entries": [{"key": "a", "opt": False, "spec": {"t": "int"}}], "relaxed": True},
+    {"t": "dict", "entries": [], "relaxed": True},
+    {"t": "dict", "entries": [{"key": "a", "opt": True, "spec": {"t": "int"}}], "relaxed": True, "relaxed_at": 0},
     {"t": "dict", "entries": [{"key": "{x}", "opt": False, "spec": {"t": "str", "len": ["eq", 2], "order": ["len"]}},
                               {"key": "%s{0}", "opt": False, "spec": {"t": "list", "form": "untyped", "len": ["max", 1]}}],
      "relaxed": False},
